@@ -56,15 +56,53 @@ pub enum Op {
     ClearSigInPlace,
     /// `pkg.metadata.signature = Header::new_empty()`
     EmptySig,
+    /// a signing ATTEMPT that fails: 0 = caller-written signer that reads the data and then
+    /// returns an error, 1 = one that fails at once, 2 = the passphrase-protected key without
+    /// its passphrase, 3 = a signer whose output is not an OpenPGP signature packet (not used
+    /// by C10, whose model has no opinion on it). No signing is performed.
+    SignFail(u8),
+}
+
+#[derive(Debug)]
+pub struct FailingSigner {
+    pub read_all: bool,
+    /// return these bytes as "the signature" instead of an error
+    pub garbage: Option<Vec<u8>>,
+}
+
+impl rpm::signature::Signing for FailingSigner {
+    type Signature = Vec<u8>;
+    fn sign(&self, mut data: impl std::io::Read, _t: rpm::Timestamp) -> Result<Vec<u8>, rpm::Error> {
+        if self.read_all {
+            let mut sink = Vec::new();
+            let _ = data.read_to_end(&mut sink);
+        }
+        if let Some(g) = &self.garbage {
+            return Ok(g.clone());
+        }
+        Err(rpm::Error::from(std::io::Error::new(std::io::ErrorKind::Other, "the signing service is unavailable")))
+    }
+    fn algorithm(&self) -> rpm::signature::AlgorithmType {
+        rpm::signature::AlgorithmType::RSA
+    }
+}
+
+fn locked_signer() -> rpm::signature::pgp::Signer {
+    static S: std::sync::OnceLock<rpm::signature::pgp::Signer> = std::sync::OnceLock::new();
+    S.get_or_init(|| {
+        let sec = std::fs::read(crate::engine::verif_root().join("assets/keys/secret_rsa3072_protected.asc")).expect("protected key");
+        rpm::signature::pgp::Signer::load_from_asc_bytes(&sec).expect("load protected key without passphrase")
+    })
+    .clone()
 }
 
 pub fn op_any() -> BoxedStrategy<Op> {
-    prop_oneof![3 => (0u8..4).prop_map(Op::Sign), 2 => Just(Op::Clear), 1 => Just(Op::Reparse)].boxed()
+    prop_oneof![6 => (0u8..4).prop_map(Op::Sign), 4 => Just(Op::Clear), 2 => Just(Op::Reparse), 1 => (0u8..4).prop_map(Op::SignFail)].boxed()
 }
 
 /// cheap signers only (the passphrase-protected RSA key costs 180 ms per signature)
 pub fn op_cheap() -> BoxedStrategy<Op> {
-    prop_oneof![3 => proptest::sample::select(vec![0u8, 2, 3]).prop_map(Op::Sign), 2 => Just(Op::Clear), 1 => Just(Op::Reparse)].boxed()
+    prop_oneof![6 => proptest::sample::select(vec![0u8, 2, 3]).prop_map(Op::Sign), 4 => Just(Op::Clear), 2 => Just(Op::Reparse), 1 => proptest::sample::select(vec![0u8, 1, 3]).prop_map(Op::SignFail)].boxed()
 }
 
 pub const SIGN_TIME: u32 = 1_600_000_000;
@@ -79,6 +117,17 @@ pub fn apply_op(pkg: &mut rpm::Package, op: &Op) -> Result<(), (String, String)>
             Op::SignNow(k) => {
                 let ks = crate::gen::keys::keys();
                 pkg.sign(ks.signers[*k as usize % 4].clone())
+            }
+            Op::SignFail(k) => {
+                let r = match k % 4 {
+                    0 => pkg.sign_with_timestamp(FailingSigner { read_all: true, garbage: None }, SIGN_TIME),
+                    1 => pkg.sign(FailingSigner { read_all: false, garbage: None }),
+                    2 => pkg.sign_with_timestamp(locked_signer(), SIGN_TIME),
+                    _ => pkg.sign_with_timestamp(FailingSigner { read_all: true, garbage: Some(b"\x00not an OpenPGP packet".to_vec()) }, SIGN_TIME),
+                };
+                // the attempt is expected to fail; whether it does is not what is judged here
+                let _ = r;
+                Ok(())
             }
             Op::Clear => pkg.clear_signatures(),
             Op::ClearSigInPlace => {
